@@ -166,6 +166,36 @@ def lemmas(aut, pid, tier, scratch):
             named = Seq(T("COMMA"), T("CONSTRAINT"), T("ID"), Alt(Seq(T("PRIMARY"), T("KEY")), T("UNIQUE")), T("LP"), T("ID"), T("RP"))
             out.append(("C02.lr/item-step/named", Lemma(aut, "item", expr0, named, ["COMMA", "RP"], expr0, aut.start, 1, K=8),
                         "from [0, expr]: , CONSTRAINT n PRIMARY KEY (a) | , CONSTRAINT n UNIQUE (a) followed by ',' or ')' returns to [0, expr] with exactly one fold"))
+    if pid == "C09":
+        ANG = ["LT", "ID", "COMMAT", "RT"]
+        for ctx, pre in (("first", ["CREATE", "TABLE", "ID", "LP", "ID"]), ("later", ["CREATE", "TABLE", "ID", "LP", "ID", "ID", "COMMA", "ID"])):
+            for head in ("ID", "ARRAY"):
+                st = aut.boundary_stack(pre + [head, "LT", "ID"], "RT")
+                s_opt = aut.boundary_stack(pre + ["ID"], "NOT")   # the option stack of a plain-typed column (C01's lemmas start there)
+                out.append((f"C09.lr/angle-step/{ctx}-column/{head}", Lemma(aut, "tid", st, T(*ANG), ANG, st, "tid", 1, K=1),
+                            f"{ctx} column whose type starts `{head} <`: inside the angle brackets any of < name , > followed by any of them returns to the same stack with exactly one "
+                            "`tid` fold => bracket nesting of any depth and any number of members stays one type"))
+                if head == "ID":
+                    out.append((f"C09.lr/angle-close/options/{ctx}-column", Lemma(aut, "tid", st, T("RT"), ["NOT", "NULL", "DEFAULT", "PRIMARY", "UNIQUE", "REFERENCES"], s_opt, "tid", 1, K=1),
+                                f"{ctx} column: the last `>` followed by a column option start leaves exactly the stack a plain-typed column has there (C01's option lemmas apply unchanged)"))
+                    out.append((f"C09.lr/angle-close/end/{ctx}-column", Lemma(aut, "tid", st, T("RT"), ["COMMA", "RP"], expr0, aut.start, 1, K=1),
+                                f"{ctx} column: the last `>` followed by ',' or ')' folds the column into the table exactly once and leaves [0, {aut.start}]"))
+    if pid == "C02":
+        pre2 = ["CREATE", "TABLE", "ID", "LP", "ID", "ID", "COMMA"]
+        for nm, head in (("unnamed", []), ("named", ["CONSTRAINT", "ID"])):
+            s_fk = aut.boundary_stack(pre2 + head + ["FOREIGN", "KEY", "LP", "ID"], "RP")
+            s_ref = aut.boundary_stack(pre2 + head + ["FOREIGN", "KEY", "LP", "ID", "RP", "REFERENCES", "ID", "LP", "ID"], "RP")
+            s_on = aut.boundary_stack(pre2 + head + ["FOREIGN", "KEY", "LP", "ID", "RP", "REFERENCES", "ID", "LP", "ID", "RP"], "ON")
+            out.append((f"C02.lr/fk-chain/head/{nm}", Lemma(aut, "fkh", expr0, Seq(T("COMMA"), *[T(x) for x in head], T("FOREIGN"), T("KEY"), T("LP"), T("ID")), ["COMMA", "RP"], s_fk, "pid", 1, K=5 + len(head)),
+                        f"from [0, expr]: `, {' '.join(head)} FOREIGN KEY ( name` followed by ',' or ')' reaches the key-list stack (name-list-step then covers any list length)"))
+            out.append((f"C02.lr/fk-chain/references/{nm}", Lemma(aut, "fkr", s_fk, Seq(T("RP"), T("REFERENCES"), T("ID"), Opt(Seq(T("DOT"), T("ID"))), T("LP"), T("ID")), ["COMMA", "RP"], s_ref, "pid", 1, K=6),
+                        "from the key-list stack: `) REFERENCES [schema .] table ( name` followed by ',' or ')' reaches the referenced-list stack"))
+            out.append((f"C02.lr/fk-chain/close/{nm}", Lemma(aut, "fkc", s_ref, T("RP"), ["COMMA", "RP"], expr0, aut.start, 1, K=1),
+                        "from the referenced-list stack: `)` followed by ',' or ')' folds the foreign key into the table exactly once and leaves [0, expr]"))
+            out.append((f"C02.lr/fk-chain/on-action/{nm}", Lemma(aut, "fko", s_on, Seq(T("ON"), T("DELETE", "UPDATE"), T("ID")), ["ON"], s_on, "ref", 1, K=3),
+                        "after the referenced list: ON DELETE | UPDATE <action> followed by another ON returns to the same stack with one `ref` fold => both actions in any order"))
+            out.append((f"C02.lr/fk-chain/on-action-close/{nm}", Lemma(aut, "fkoc", s_on, Seq(T("ON"), T("DELETE", "UPDATE"), T("ID")), ["COMMA", "RP"], expr0, aut.start, 1, K=3),
+                        "after the referenced list: ON DELETE | UPDATE <action> followed by ',' or ')' folds the foreign key into the table exactly once"))
     if pid == "C11" and tier == "thorough":
         base, streams, names = clause_token_streams(scratch)
         cat = json.load(open(f"{VERIF}/catalog/clauses.json"))["clauses"]
